@@ -252,12 +252,38 @@ def check_table(chk):
                       (next((a, b) for a, b in itertools.zip_longest(tbl, exp) if a != b),))
 
 
+def reentrancy(chk):
+    """VarInt / VarLong behave like functions: nothing carried over from a call whose socket failed, nothing shared between threads"""
+    import reent
+    from minecraft.networking.types import VarInt, VarLong
+    vals = [0, 1, 127, 128, 300, 16384, 2 ** 21 - 1, 2 ** 28, 2 ** 31 - 1, 2 ** 32 - 1]
+    enc = [('VarInt', VarInt.send, v, leb128(v)) for v in vals] + [('VarLong', VarLong.send, v, leb128(v)) for v in vals + [2 ** 35, 2 ** 56, 2 ** 63 - 1, 2 ** 64 - 1]]
+    reent.after_failure(chk, 'reentrancy', enc)
+
+    def mk_send(cls, v):
+        def call():
+            s = Sink()
+            cls.send(v, s)
+            return s.b
+        return call
+
+    def mk_read(cls, data):
+        def call():
+            s = CountingStream(data + b'\x55')
+            return (cls.read(s), s.pos)
+        return call
+    cases = [('%s.send(%d)' % (n, v), mk_send(VarInt if n == 'VarInt' else VarLong, v), e) for n, _f, v, e in enc]
+    cases += [('%s.read(%s)' % (n, e.hex()), mk_read(VarInt if n == 'VarInt' else VarLong, e), (v, len(e))) for n, _f, v, e in enc]
+    reent.threaded(chk, 'reentrancy', cases, seconds=2.0 if chk.tier == 'thorough' else 0.6)
+
+
 def run(chk):
     common.standard_proof(chk, 'Properties/C03.v')
     check_table(chk)
     check_read(chk, gen_read(chk))
     check_send(chk, gen_ints(chk))
     check_neg(chk, NEG)
+    reentrancy(chk)
     chk.assumptions += ['CPython integer and bytes semantics; struct.pack("B")',
                         'negative sends are judged non-terminating when an 8 s watchdog expires']
 
